@@ -131,7 +131,7 @@ pub fn exec(song: &mut Song, tokens: &Vec<Token>) -> bool {
                     }
                     Some(i) => i,
                 };
-                if it.index == (it.count - 1) {
+                if it.count > 0 && it.index == (it.count - 1) {
                     if it.end_pos == 0 {
                         // find the end of this loop, skipping loops nested after ':'
                         let mut depth = 0;
